@@ -672,7 +672,14 @@ func (st *tunnelClientStream) CloseSend() error {
 
 	select {
 	case <-st.doneSignal:
-		return st.loadDone()
+		// The RPC already finished. A failure is reported. But if it finished
+		// normally (a handler may reply before the client half-closes), there
+		// is nothing left to close and this is not an error: the caller must
+		// still be able to receive the response.
+		if err := st.loadDone(); err != io.EOF {
+			return err
+		}
+		return nil
 	default:
 		// don't block since we are holding writeMu
 	}
